@@ -3403,9 +3403,11 @@ class HasTraits(CHasTraits, metaclass=MetaHasTraits):
 
         # Otherwise the local copy of the delegate value was deleted, restore
         # the delegate listener (unless it's already there):
-        if name not in dict:
+        # (a delegate declared with listenable=False has no listener at all):
+        listener_traits = self.__class__.__listener_traits__
+        if name not in dict and name in listener_traits:
             self._init_trait_delegate_listener(
-                name, 0, self.__class__.__listener_traits__[name][1]
+                name, 0, listener_traits[name][1]
             )
 
     def _init_trait_observers(self):
